@@ -1,5 +1,5 @@
 import BHS.Props.C05
-import BHS.Props.SqlShape
+import BHS.Props.SqlShape.Add
 import BHS.Props.ChainSvc
 open BHS.Props.C05
 #print axioms C05_restart_id
